@@ -140,6 +140,8 @@ func numOps() []numOp {
 		{"mulRoundUpDec", "sd", func(a, b *big.Int) *big.Int { return bd(a).MulRoundUpDec(sd(b)).BigInt() }, ex(mulExact(p18), "ceil"), "bd", nil},
 		{"mulInt", "int", func(a, b *big.Int) *big.Int { return bd(a).MulInt(osmomath.NewBigIntFromBigInt(b)).BigInt() },
 			ex(func(a, b *big.Int) *big.Rat { return new(big.Rat).SetInt(new(big.Int).Mul(a, b)) }, "exact"), "bd", nil},
+		{"mulInt64", "i64", func(a, b *big.Int) *big.Int { return bd(a).MulInt64(b.Int64()).BigInt() },
+			ex(func(a, b *big.Int) *big.Rat { return new(big.Rat).SetInt(new(big.Int).Mul(a, b)) }, "exact"), "bd", nil},
 		{"quo", "bd", func(a, b *big.Int) *big.Int { return bd(a).Quo(bd(b)).BigInt() }, ex(quoExact(p36), "halfeven72"), "bd",
 			func(a, b *big.Int) *big.Int { return bd(a).QuoMut(bd(b)).BigInt() }},
 		{"quoRaw", "i64", func(a, b *big.Int) *big.Int { return bd(a).QuoRaw(b.Int64()).BigInt() },
@@ -165,6 +167,13 @@ func numOps() []numOp {
 				return ratOf(a, b)
 			}, "ceilInt36"), "bd", nil},
 		{"quoInt", "int", func(a, b *big.Int) *big.Int { return bd(a).QuoInt(osmomath.NewBigIntFromBigInt(b)).BigInt() },
+			ex(func(a, b *big.Int) *big.Rat {
+				if b.Sign() == 0 {
+					return nil
+				}
+				return ratOf(a, b)
+			}, "trunc"), "none", nil},
+		{"quoInt64", "i64", func(a, b *big.Int) *big.Int { return bd(a).QuoInt64(b.Int64()).BigInt() },
 			ex(func(a, b *big.Int) *big.Rat {
 				if b.Sign() == 0 {
 					return nil
@@ -367,6 +376,8 @@ func runNum(seed int64, n int, dir string) {
 		al.uops[op.name] = op
 	}
 	al.dops, al.doDec = newDecRunner(o)
+	ie := newNumIntEng(g, o)
+	al.ival = ie.value
 	cops := chainOps()
 	al.sweep()
 	for i := 0; i < n; i++ {
@@ -389,15 +400,8 @@ func runNum(seed int64, n int, dir string) {
 				if b.BitLen() > 1024 { // NewBigIntFromBigInt itself rejects these: not an operand
 					b = g.genRaw(1000, o, "b")
 				}
-			case "i64":
-				b = big.NewInt(g.r.Int63n(1<<40) - 1<<39)
-				if g.Intn(8) == 0 {
-					b = big.NewInt(g.r.Int63() - 1<<62)
-				}
-				if g.Intn(10) == 0 { // the int64 boundaries themselves
-					b = big.NewInt([]int64{0, 1, -1, 1<<63 - 1, -1 << 63, 1<<63 - 2, -1<<63 + 1, 1 << 31, 1 << 32, -1 << 31, -1<<32 - 1}[g.Intn(11)])
-					o.Count("class.i64-boundary")
-				}
+			case "i64": // powers of two of either sign, their neighbours, powers of ten, the int64 extremes, random
+				b = big.NewInt(g.genI64(o))
 			}
 			// shrink a so that products usually fit
 			if g.Intn(3) != 0 && a.BitLen()+b.BitLen() > maxBits+118 {
@@ -443,6 +447,18 @@ func runNum(seed int64, n int, dir string) {
 			case "quoRoundUpNextIntMut", "quoInt":
 				m := g.randBits(1 + g.Intn(200))
 				m.Add(m, big.NewInt(2))
+				if op.name == "quoInt" && g.Intn(2) == 0 { // power-of-two divisor
+					m = pow2(1 + g.Intn(200))
+					o.Count("directed.quoInt-pow2-divisor")
+				}
+				a, b = g.tieOperand(m, 300), m
+			case "quoInt64", "mulInt64": // dividend q*m + r, r on / next to 0, m/2, m; m a power of two or any int64 >= 2
+				m := pow2(1 + g.Intn(62))
+				if g.Intn(3) == 0 {
+					m = big.NewInt(2 + g.r.Int63n(1<<62))
+				} else {
+					o.Count("directed.quoInt64-pow2-divisor")
+				}
 				a, b = g.tieOperand(m, 300), m
 			default:
 				a, b = g.genRaw(600, o, "a"), g.genRaw(500, o, "b")
@@ -505,6 +521,18 @@ func runNum(seed int64, n int, dir string) {
 			}
 			if err != nil || y.BigInt().Cmp(a) != 0 {
 				o.Fail("marshalRoundtrip:"+cls, mline)
+			}
+			buf := make([]byte, (&x).Size()+4)
+			if nn, terr := (&x).MarshalTo(buf); terr != nil || nn != (&x).Size() || string(buf[:nn]) != string(bz) {
+				o.Fail("marshalTo:differs-from-marshal:"+cls, mline)
+			} else {
+				y2 := osmomath.ZeroBigDec()
+				if aerr := (&y2).UnmarshalAmino(buf[:nn]); (aerr == nil) != (err == nil) || (aerr == nil && y2.BigInt().Cmp(a) != 0) {
+					o.Fail("aminoRoundtrip:differs-from-unmarshal:"+cls, mline)
+				}
+			}
+			if abz, aerr := x.MarshalAmino(); aerr != nil || string(abz) != string(bz) {
+				o.Fail("marshalAmino:differs-from-marshal:"+cls, mline)
 			}
 			jz, _ := x.MarshalJSON()
 			z := osmomath.ZeroBigDec()
@@ -570,6 +598,7 @@ func runNum(seed int64, n int, dir string) {
 		}
 	}
 	runDecOps(g, o, n/5)
+	runNumInt(g, o, ie, n/3)
 	o.Close(nil)
 }
 
